@@ -95,23 +95,20 @@ def classify(unit, res, gen_path):
         for l in range(f.gen_start, f.gen_end + 1):
             fn_by_line[l] = f
 
-    def clause_at(line):
-        """clause id for a template-origin line: the //# marker at or after
-        the line inside the same contiguous template block"""
-        # search fn clauses
+    def clause_at(line, line_end=None):
+        """clause id for a template-origin span: the last //# marker on the lines the span covers
+        (a clause carries its marker on its last line)"""
+        line_end = line_end or line
         best = None
         for f in unit.fns:
             if f.gen_start <= line <= f.gen_end:
                 for (gl, cid, ctags, kind) in f.clauses:
-                    if gl >= line and (best is None or gl < best[0]):
-                        # must be contiguous template lines between
-                        if all(unit.origin[k - 1][0] == 't' for k in range(line, gl + 1)):
-                            best = (gl, cid, ctags, kind, f)
+                    if line <= gl <= line_end and (best is None or gl > best[0]):
+                        best = (gl, cid, ctags, kind, f)
                 return best
         for (gl, cid, ctags, _m) in unit.tmpl_clauses:
-            if gl >= line and (best is None or gl < best[0]):
-                if all(unit.origin[k - 1][0] == 't' for k in range(line, gl + 1)) and gl - line < 40:
-                    best = (gl, cid, ctags, 'tmpl', None)
+            if line <= gl <= line_end and (best is None or gl > best[0]):
+                best = (gl, cid, ctags, 'tmpl', None)
         return best
 
     for d in res['diags']:
@@ -150,7 +147,7 @@ def classify(unit, res, gen_path):
             if o[0] == 's' and rec['src'] is None:
                 rec['src'] = '%s:%d' % (o[1], o[2])
             if o[0] == 't':
-                c = clause_at(s[1])
+                c = clause_at(s[1], s[2])
                 rec['tmpl'] = rec['tmpl'] or '%s:%d' % (o[1], o[2])
                 if c:
                     inside_same_fn = c[4] is not None and c[4] is rec['fn']
